@@ -9,10 +9,17 @@ import PetgraphModel.Proofs.C08W3Total
 import PetgraphModel.Proofs.C08W3Driver
 import PetgraphModel.Proofs.C08W3Clauses
 import PetgraphModel.Proofs.C08W3MoveTo
+import PetgraphModel.Proofs.C08W4Clauses
+import PetgraphModel.Proofs.C08W4Script
+import PetgraphModel.Proofs.C08W4Prefix
+import PetgraphModel.Proofs.C08W4Checks
+import PetgraphModel.Proofs.C08W4SetJudges
 /-
 C08 — `Dfs`, `Bfs`, `DfsPostOrder`, `Topo`, `depth_first_search` visit what graph theory says.
 Theorems over the mirror models of `Model/Traversal.lean` (tied to /repo by the exact
-correspondence of `./check C08` on every storage type and on `Reversed`).
+correspondence of `./check C08` on every storage type and on the adaptors `Reversed`, `EdgeFiltered`,
+`NodeFiltered`, `Frozen`), soundness of every run-time judge of `Driver/C08.lean` (wave 4), and the
+run-time checks of the hypotheses (last section).
 -/
 namespace PetgraphModel.C08T
 open PetgraphModel PetgraphModel.Trav PetgraphModel.MGraph PetgraphModel.TravProofs
@@ -549,5 +556,325 @@ theorem C08_topo_withInitials (v : View) (hv : ViewOk v) (hp : PredOk v) (l : Li
   have := (hp i p).mpr hpi
   rw [hi0] at this
   cases this
+
+
+/-! ### wave 4, goal 1: the run-time event-replay checker `C08.judgeEvents` is sound
+
+Vocabulary: `TravProofs.Accepts v starts script L r` — the reference machine of `C08_dfsv_simulation`
+accepts the forward event list `L` on the view `v` and ends in a state matching the result `r`;
+`TravProofs.EventClauses g starts script L r` — the bundle of all clauses of the property about
+`depth_first_search` (times, nesting, classification, control), stated against the ABSTRACT graph;
+`TravProofs.resStr r` — the word the harness prints for `r`. -/
+
+/-- **`judgeEvents` is sound**: an accepted answer `evs | res` is a run of the reference machine on some
+neighbour order of the abstract graph (every neighbour list a permutation of `g.succ`, so the view is
+`ViewOk`), ending as the implementation said; after a complete traversal every start node was
+discovered.  No hypothesis about `g`, the start nodes or the script. -/
+theorem C08_judgeEvents_sound (g : MGraph) (starts : List Nat) (script : List Ctl) (evs : List Ev) (res : String)
+    (h : C08.judgeEvents g starts script evs res = none) :
+    ∃ v r, v.g = g ∧ (∀ a, (v.succ a).Perm (g.succ a)) ∧ ViewOk v ∧ Accepts v starts script evs r ∧
+      r ≠ .fuel ∧ res = resStr r ∧ (r = .cont → ∀ x, x ∈ starts → x ∈ discOf evs) :=
+  TravProofs.judgeEvents_sound g starts script evs res h
+
+/-- every accepted stream — of the model (`accepts_of_dfsSearch`) or of the implementation
+(`C08_judgeEvents_sound`) — satisfies all clauses of the property w.r.t. the abstract graph. -/
+theorem C08_accepted_clauses (v : View) (hp : ∀ a, (v.succ a).Perm (v.g.succ a)) (starts : List Nat)
+    (script : List Ctl) (L : List Ev) (r : Res) (h : Accepts v starts script L r) (hr : r ≠ .fuel) :
+    EventClauses v.g starts script L r :=
+  TravProofs.clauses_of_accepts hp h hr
+
+/-- **what the driver's `ok` on a `dfsv` line guarantees** (as far as the specification goes): the
+implementation's event stream satisfies the nesting / classification / time-stamp / control clauses
+w.r.t. the abstract graph and the control script, its result word is the one the clauses determine, and
+after a complete traversal the discovered nodes are exactly those reachable from the start nodes
+respecting the prunes (`C08_dfsv_reach_prune`). -/
+theorem C08_judgeEvents_clauses (g : MGraph) (starts : List Nat) (script : List Ctl) (evs : List Ev) (res : String)
+    (h : C08.judgeEvents g starts script evs res = none) :
+    ∃ r, r ≠ .fuel ∧ res = resStr r ∧ EventClauses g starts script evs r ∧
+      (r = .cont → (∀ x, x ∈ starts → x ∈ discOf evs) ∧
+        ∀ x, x ∈ discOf evs ↔ ∃ s, s ∈ starts ∧ PReach g script evs s x) :=
+  TravProofs.judgeEvents_clauses g starts script evs res h
+
+/-- non-vacuity: the judge accepts a stream with a pruned tree edge (`0 → 1` pruned, `2` entered), and
+rejects the same stream when `Discover(2)` lacks its tree edge. -/
+example : C08.judgeEvents ⟨true, [0, 1, 2], [⟨0, 0, 1, 1⟩, ⟨1, 0, 2, 1⟩, ⟨2, 1, 2, 1⟩]⟩ [0] [.cont, .prune]
+    [.discover 0 0, .tree 0 1, .tree 0 2, .discover 2 1, .finish 2 2, .finish 0 3] "cont" = none := by decide
+example : C08.judgeEvents ⟨true, [0, 1, 2], [⟨0, 0, 1, 1⟩, ⟨1, 0, 2, 1⟩, ⟨2, 1, 2, 1⟩]⟩ [0] [.cont, .prune]
+    [.discover 0 0, .tree 0 1, .discover 2 1, .finish 2 2, .finish 0 3] "cont" ≠ none := by decide
+
+/-! ### wave 4, goal 2: `DfsPostOrder` order clause for a used walker; the script judges are sound -/
+
+/-- **order clause after `move_to` on a used walker** whose earlier segments were all run to exhaustion
+(or that was reset): `discovered` and `finished` are the same set (`D`, `F`).  Every node `x` emitted
+after `move_to(s)` comes after each successor `y` that cannot reach it back through nodes outside `D` —
+a fortiori after each successor that cannot reach it back at all: `y` was finished before the `move_to`,
+or it is emitted earlier in this segment.  Afterwards `discovered = finished` again, so the theorem
+applies to the next `move_to`. -/
+theorem C08_postorder_moveTo_order (v : View) (hv : ViewOk v) (s : Nat) (D F : List Nat)
+    (hFD : ∀ x, x ∈ F → x ∈ D) (hDF : ∀ x, x ∈ D → x ∈ F) (inner outer : Nat) (out : List Nat) (d' : Post)
+    (h : postAll v inner outer { stack := [s], disc := D, fin := F } [] = some (out, d')) :
+    (∀ x y, x ∈ out → v.g.Adj x y → ¬ ReachAvoid v.g D y x → y ∈ F ∨ (y ∈ out ∧ out.idxOf y < out.idxOf x)) ∧
+    (∀ x y, x ∈ out → v.g.Adj x y → ¬ Reach v.g y x → y ∈ F ∨ (y ∈ out ∧ out.idxOf y < out.idxOf x)) ∧
+    (∀ x, x ∈ d'.disc ↔ x ∈ d'.fin) := by
+  have key := fun x y hx hxy hb => TravProofs.post_moveTo_order v hv s D F hFD hDF inner outer out d' h x y hx hxy hb
+  refine ⟨key, fun x y hx hxy hb => key x y hx hxy (fun hra => hb (TravProofs.reachAvoid_reach' hra)), ?_⟩
+  obtain ⟨_, h2, h3, h4⟩ := TravProofs.post_moveTo v hv s D F hFD inner outer out d' h
+  intro x
+  rw [h3 x, h4 x, h2 x]
+  constructor
+  · rintro (h5 | h5)
+    · exact Or.inl (hDF x h5)
+    · exact Or.inr (Or.inl h5)
+  · rintro (h5 | h5 | ⟨_, h6, h7⟩)
+    · exact Or.inl (hFD x h5)
+    · exact Or.inr h5
+    · exact absurd (hDF s h6) h7
+
+/-- non-vacuity: on `0 → 1`, `0 → 2`, `1 → 2`, a walker that has emitted `2, 1` and is moved to `0` emits `0`. -/
+example : (postAll ⟨⟨true, [0, 1, 2], [⟨0, 0, 1, 1⟩, ⟨1, 0, 2, 1⟩, ⟨2, 1, 2, 1⟩]⟩, 3, [],
+      [(0, [(1, 0), (2, 1)]), (1, [(2, 2)])], []⟩ 10 10 { stack := [0], disc := [1, 2], fin := [1, 2] } []).map (·.1) =
+    some [0] := by decide
+
+/-- **`DfsPostOrder` used for several start nodes** (a fresh or reset walker, `move_to` each start of
+`ss` in turn and iterate to exhaustion — `TravProofs.postSegs`): everything emitted, in order, lists
+exactly the nodes reachable from the start nodes, each once, and every node after each of its
+successors that cannot reach it back — the order clause of the property for the used walker. -/
+theorem C08_postorder_segments (v : View) (hv : ViewOk v) (inner outer : Nat) (ss : List Nat)
+    (segs : List (List Nat)) (d' : Post) (h : postSegs v inner outer ss {} = some (segs, d')) :
+    segs.flatten.Nodup ∧ (∀ x, x ∈ segs.flatten ↔ ∃ s, s ∈ ss ∧ Reach v.g s x) ∧
+    ∀ x, x ∈ segs.flatten → ∀ y, v.g.Adj x y → ¬ Reach v.g y x →
+      segs.flatten.idxOf y < segs.flatten.idxOf x :=
+  TravProofs.post_segs v hv inner outer ss segs d' h
+
+/-- **the `walk dfs` script judge is sound**: an accepted answer decodes into segments (one per
+`move_to`; `C08_script_decode`) each of which satisfies `SegSetOk` w.r.t. the nodes emitted earlier
+since the last reset (`base`): nothing emitted twice, only nodes reachable from the segment's start
+through nodes outside `base`, and all of them once the walker returned `None` — what `C08_dfs_moveTo`
+proves of the model. -/
+theorem C08_judgeDfs_sound (g : MGraph) (cmds : List C08.Cmd) (toks : List (Option Nat))
+    (h : C08.judgeDfs g cmds toks = none) :
+    ∃ segs, C08.decodeScript cmds toks = .ok segs ∧ ∀ sg, sg ∈ segs →
+      (sg.start = none → sg.out = []) ∧ ∀ s, sg.start = some s → SegSetOk g sg s :=
+  TravProofs.judgeDfs_sound g cmds toks h
+
+/-- **the `walk post` script judge (`judgePostScript`) is sound**: every segment of an accepted answer
+that follows only exhausted segments (`dirty = false`) satisfies the set clauses `SegSetOk` and, once
+the walker returned `None`, the order clause `SegOrderOk` (each emitted node after every successor that
+cannot reach it back: emitted in an earlier segment or earlier in this one) — what
+`C08_postorder_moveTo` / `C08_postorder_moveTo_order` prove of the model; after an abandoned segment
+only "nothing is emitted twice since the last reset" is judged. -/
+theorem C08_judgePostScript_sound (g : MGraph) (cmds : List C08.Cmd) (toks : List (Option Nat))
+    (h : C08.judgePostScript g cmds toks = none) :
+    ∃ segs, C08.decodeScript cmds toks = .ok segs ∧ ∀ sg, sg ∈ segs →
+      (sg.dirty = true → sg.out.Nodup ∧ ∀ x, x ∈ sg.out → x ∉ sg.base) ∧
+      (sg.dirty = false → (sg.start = none → sg.out = []) ∧
+        ∀ s, sg.start = some s → SegSetOk g sg s ∧ (sg.exhausted = true → SegOrderOk g sg)) :=
+  TravProofs.judgePostScript_sound g cmds toks h
+
+/-- the decoding of an answer into segments loses nothing: the segments carry the emitted nodes in
+order, the first one is the walker as created, and each later one follows its predecessor as
+`SegNext` says (`reset`: nothing remembered; `move_to`: base = everything emitted since the last reset). -/
+theorem C08_script_decode (cmds : List C08.Cmd) (toks : List (Option Nat)) (segs : List C08.Seg)
+    (h : C08.decodeScript cmds toks = .ok segs) :
+    ∃ first tail, segs = first :: tail ∧ first.base = [] ∧ first.start = none ∧ first.dirty = false ∧
+      SegChain first tail ∧ (segs.map C08.Seg.out).flatten = toks.filterMap id :=
+  TravProofs.decodeScript_spec cmds toks segs h
+
+/-- the model's segments pass the segment judge's specification: a `DfsPostOrder` whose maps both equal
+`base` (as sets), moved to `s` and run to exhaustion, emits a segment satisfying `SegSetOk` and
+`SegOrderOk`. -/
+theorem C08_postorder_segment_ok (v : View) (hv : ViewOk v) (s : Nat) (D F base : List Nat)
+    (hD : ∀ x, x ∈ D ↔ x ∈ base) (hF : ∀ x, x ∈ F ↔ x ∈ base) (inner outer : Nat) (out : List Nat) (d' : Post)
+    (h : postAll v inner outer { stack := [s], disc := D, fin := F } [] = some (out, d')) :
+    SegSetOk v.g { base := base, start := some s, out := out, exhausted := true } s ∧
+    SegOrderOk v.g { base := base, start := some s, out := out, exhausted := true } := by
+  have hFD : ∀ x, x ∈ F → x ∈ D := fun x hx => (hD x).mpr ((hF x).mp hx)
+  have hDF : ∀ x, x ∈ D → x ∈ F := fun x hx => (hF x).mpr ((hD x).mp hx)
+  obtain ⟨h1, h2, _, _⟩ := TravProofs.post_moveTo v hv s D F hFD inner outer out d' h
+  have hra : ∀ x, ReachAvoid v.g D s x ↔ ReachAvoid v.g base s x := by
+    intro x
+    constructor <;> intro hr
+    · induction hr with
+      | refl h0 => exact ReachAvoid.refl (fun hb => h0 ((hD _).mpr hb))
+      | step _ hadj hc ih => exact ReachAvoid.step ih hadj (fun hb => hc ((hD _).mpr hb))
+    · induction hr with
+      | refl h0 => exact ReachAvoid.refl (fun hb => h0 ((hD _).mp hb))
+      | step _ hadj hc ih => exact ReachAvoid.step ih hadj (fun hb => hc ((hD _).mp hb))
+  have hout : ∀ x, x ∈ out ↔ ReachAvoid v.g base s x := by
+    intro x
+    rw [h2 x, ← hra x]
+    exact ⟨fun h => h.elim id (fun ⟨_, h6, h7⟩ => absurd (hDF s h6) h7), Or.inl⟩
+  refine ⟨⟨h1, fun x hx hb => ((hout x).mp hx).not_mem hb, fun x hx => (hout x).mp hx,
+    fun _ x hx => (hout x).mpr hx⟩, ?_⟩
+  intro x hx y hxy hback
+  rcases (C08_postorder_moveTo_order v hv s D F hFD hDF inner outer out d' h).2.1 x y hx hxy hback with h3 | h3
+  · exact Or.inl ((hF y).mp h3)
+  · exact Or.inr h3
+
+/-- non-vacuity of the script judges: accepted and rejected answers on `0 → 1`, `0 → 2`, `1 → 2`. -/
+example : C08.judgePostScript ⟨true, [0, 1, 2], [⟨0, 0, 1, 1⟩, ⟨1, 0, 2, 1⟩, ⟨2, 1, 2, 1⟩]⟩
+    [.new 1, .all, .new 0, .all] [some 2, some 1, none, some 0, none] = none := by decide
+example : C08.judgePostScript ⟨true, [0, 1, 2], [⟨0, 0, 1, 1⟩, ⟨1, 0, 2, 1⟩, ⟨2, 1, 2, 1⟩]⟩
+    [.new 2, .all, .new 0, .all] [some 2, none, some 0, some 1, none] ≠ none := by decide
+example : C08.judgeDfs ⟨true, [0, 1, 2], [⟨0, 0, 1, 1⟩, ⟨1, 0, 2, 1⟩, ⟨2, 1, 2, 1⟩]⟩
+    [.new 1, .take 1, .new 0, .all] [some 1, some 0, some 2, none] = none := by decide
+
+/-! ### wave 4, goal 3: `depth_first_search` — the discovered set under `Prune`, and `Break` -/
+
+/-- **the discovered set with a pruning visitor** (result `Continue`, any script): a Discover/Finish pair
+is reported for exactly the nodes reachable from a start node along edges `u → w` such that
+`Discover(u)` was not answered `Prune` (`PrunedAt`) and the edge was not pruned away (`Blocked`: a
+`TreeEdge(u, w)` answered `Prune`, none answered `Continue`).  Nodes reachable only through pruned nodes
+or pruned tree edges are NOT discovered. -/
+theorem C08_dfsv_reach_prune (v : View) (hv : ViewOk v) (script : List Ctl) (fuel : Nat) (starts : List Nat)
+    (s' : VS) (h : dfsSearch v script fuel starts {} = (s', .cont)) (x : Nat) :
+    (x ∈ discOf s'.evs.reverse ↔ ∃ s, s ∈ starts ∧ PReach v.g script s'.evs.reverse s x) ∧
+    (x ∈ finOf s'.evs.reverse ↔ ∃ s, s ∈ starts ∧ PReach v.g script s'.evs.reverse s x) := by
+  have hst : ∀ s, s ∈ starts → s ∈ discOf s'.evs.reverse := by
+    intro s hs
+    have := (TravProofs.dfsSearch_starts v script fuel starts {} (by rw [h])).2 s hs
+    rw [h] at this
+    rw [(TravProofs.dfsv_once h).2.2.2.1] at this
+    simpa using this
+  have h1 := TravProofs.acc_reach_prune hv (TravProofs.accepts_of_dfsSearch h) hst x
+  exact ⟨h1, ⟨fun hf => h1.mp ((TravProofs.dfsv_once h).2.2.1 x hf),
+    fun hr => (TravProofs.dfsv_nested h).2.2 rfl x (h1.mpr hr)⟩⟩
+
+/-- without any `Prune` answer the pruned reachability is plain reachability, so
+`C08_dfsv_reach_exact` is the special case. -/
+theorem C08_dfsv_preach_of_reach (g : MGraph) (script : List Ctl) (L : List Ev)
+    (hall : ∀ k, k < L.length → ctlAt script k ≠ .prune) (a b : Nat) (h : Reach g a b) :
+    PReach g script L a b :=
+  TravProofs.preach_of_reach hall h
+
+/-- non-vacuity and sharpness: on `0 → 1 → 2` with `Discover(1)` answered `Prune`, node `2` is reachable
+but not discovered, the run ends with `Continue`. -/
+example : (dfsSearch ⟨⟨true, [0, 1, 2], [⟨0, 0, 1, 1⟩, ⟨1, 1, 2, 1⟩]⟩, 3, [], [(0, [(1, 0)]), (1, [(2, 1)])], []⟩
+      [.cont, .cont, .prune] 20 [0] {}).2 = .cont ∧
+    discOf (dfsSearch ⟨⟨true, [0, 1, 2], [⟨0, 0, 1, 1⟩, ⟨1, 1, 2, 1⟩]⟩, 3, [], [(0, [(1, 0)]), (1, [(2, 1)])], []⟩
+      [.cont, .cont, .prune] 20 [0] {}).1.evs.reverse = [0, 1] := by decide
+
+/-- **prefix property**: the event with index `k` depends only on the visitor's answers to the events
+`0 … k-1`.  Two visitors agreeing on their first `K` answers see the same first `K + 1` events, and if
+one run has at most `K` events the two runs are identical. -/
+theorem C08_dfsv_prefix (v : View) (K : Nat) (sc1 sc2 : List Ctl)
+    (hagree : ∀ i, i < K → ctlAt sc1 i = ctlAt sc2 i) (fuel : Nat) (starts : List Nat) :
+    (dfsSearch v sc1 fuel starts {}).1.evs.reverse.take (K + 1) =
+      (dfsSearch v sc2 fuel starts {}).1.evs.reverse.take (K + 1) ∧
+    ((dfsSearch v sc1 fuel starts {}).1.evs.length ≤ K →
+      dfsSearch v sc1 fuel starts {} = dfsSearch v sc2 fuel starts {}) :=
+  TravProofs.dfsSearch_prefix v hagree fuel starts
+
+/-- **`Break` only cuts the traversal short**: a run ending with `Break` consists of exactly the first
+events of the run in which the visitor answers `Continue` from the breaking event on (the script
+truncated just before the `Break`); in particular it discovers exactly what that prefix discovers. -/
+theorem C08_dfsv_break_prefix (v : View) (script : List Ctl) (fuel : Nat) (starts : List Nat) (s1 : VS)
+    (h1 : dfsSearch v script fuel starts {} = (s1, .brk)) :
+    s1.evs.reverse =
+      (dfsSearch v (script.take (s1.evs.length - 1)) fuel starts {}).1.evs.reverse.take s1.evs.length :=
+  TravProofs.dfsSearch_break_prefix v script fuel starts s1 h1
+
+/-! ### wave 4: the remaining run-time judges are sound as well -/
+
+/-- **`judgeBfs` is sound**: an accepted `Bfs` answer lists exactly the nodes reachable from the start,
+each once, in non-decreasing hop distance — the conclusion of `C08_bfs`, now of the implementation's
+answer.  (The distances come from an unverified layered search and are certified: `distCertBad`.) -/
+theorem C08_judgeBfs_sound (g : MGraph) (s : Nat) (out : List Nat) (h : C08.judgeBfs g s out = none) :
+    out.Nodup ∧ (∀ x, x ∈ out ↔ Reach g s x) ∧
+    ∀ i j (hi : i < out.length) (hj : j < out.length), i ≤ j →
+      ∀ di dj, IsDist g s out[i] di → IsDist g s out[j] dj → di ≤ dj :=
+  TravProofs.judgeBfs_sound g s out h
+
+/-- **`judgeTopoAll` is sound** (graph well-formed — checked per case by `wfB`): an accepted `Topo`
+answer lists exactly the nodes neither on nor downstream of a cycle, each once, each after all its
+predecessors — the conclusions of `C08_topo_order` and `C08_topo_exact`. -/
+theorem C08_judgeTopoAll_sound (g : MGraph) (hwf : g.WellFormed) (out : List Nat)
+    (h : C08.judgeTopoAll g out = none) :
+    out.Nodup ∧ (∀ x, x ∈ out ↔ x ∈ g.nodes ∧ ∀ c, Reach1 g c c → ¬ Reach g c x) ∧
+    ∀ x, x ∈ out → ∀ p, g.Adj p x → p ∈ out ∧ out.idxOf p < out.idxOf x :=
+  TravProofs.judgeTopoAll_sound g hwf out h
+
+/-- **`judgeTopoInit` is sound**: an accepted `Topo::with_initials` answer emits nothing twice and every
+node after all its predecessors, all of which were emitted (hence nothing on or downstream of a cycle) —
+the first two conclusions of `C08_topo_withInitials`. -/
+theorem C08_judgeTopoInit_sound (g : MGraph) (out : List Nat) (h : C08.judgeTopoInit g out = none) :
+    out.Nodup ∧ ∀ x, x ∈ out → ∀ p, g.Adj p x → p ∈ out ∧ out.idxOf p < out.idxOf x :=
+  TravProofs.judgeTopoInit_sound g out h
+
+/-- non-vacuity: on `0 → 1`, `0 → 2`, `1 → 2`, `2 → 3`, `3 → 2` the judges accept the right answers and
+reject a Bfs answer out of distance order and a Topo answer containing a node of the cycle. -/
+example : C08.judgeBfs ⟨true, [0, 1, 2, 3], [⟨0, 0, 1, 1⟩, ⟨1, 0, 2, 1⟩, ⟨2, 1, 2, 1⟩, ⟨3, 2, 3, 1⟩, ⟨4, 3, 2, 1⟩]⟩ 0 [0, 2, 1, 3] = none ∧
+    C08.judgeBfs ⟨true, [0, 1, 2, 3], [⟨0, 0, 1, 1⟩, ⟨1, 0, 2, 1⟩, ⟨2, 1, 2, 1⟩, ⟨3, 2, 3, 1⟩, ⟨4, 3, 2, 1⟩]⟩ 0 [0, 2, 3, 1] ≠ none ∧
+    C08.judgeTopoAll ⟨true, [0, 1, 2, 3], [⟨0, 0, 1, 1⟩, ⟨1, 0, 2, 1⟩, ⟨2, 1, 2, 1⟩, ⟨3, 2, 3, 1⟩, ⟨4, 3, 2, 1⟩]⟩ [0, 1] = none ∧
+    C08.judgeTopoAll ⟨true, [0, 1, 2, 3], [⟨0, 0, 1, 1⟩, ⟨1, 0, 2, 1⟩, ⟨2, 1, 2, 1⟩, ⟨3, 2, 3, 1⟩, ⟨4, 3, 2, 1⟩]⟩ [0, 1, 2] ≠ none ∧
+    C08.judgeTopoInit ⟨true, [0, 1, 2, 3], [⟨0, 0, 1, 1⟩, ⟨1, 0, 2, 1⟩, ⟨2, 1, 2, 1⟩, ⟨3, 2, 3, 1⟩, ⟨4, 3, 2, 1⟩]⟩ [0, 1] = none := by
+  decide
+
+/-! ### wave 4: run-time checks of the hypotheses
+
+Every hypothesis of the theorems above that concerns the concrete case is evaluated by
+`Driver/C08.lean` on every case it judges; a failing check is answered `SPECFAIL side condition …`
+(the `graph` line: something the encoding must guarantee) or `SPECFAIL generator left the proved
+range: …` (start nodes: something the generator must respect).
+
+| hypothesis | Boolean | where |
+|---|---|---|
+| `ViewOk v`, `PredOk v` | `viewOkB v && wfB v.g && closedB v` | `graph` line |
+| `v.g.WellFormed` | `wfB v.g` | `graph` line |
+| `s ∈ v.g.nodes` (start / `move_to` target / start list / initials) | `nodesB v …` | every request |
+| inner / outer fuel bounds | none needed: `C08_driver_fuel_suffices` from `viewOkB`, `wfB` | |
+| `Topo::with_initials`: `l.Nodup ∨ walkFuel + |l| ≤ inner` | `initsOkB l` | `topo init` |
+| run `= some …` / result `≠ fuel` | none needed: `C08_driver_runs_total`, `C08_driver_walk_no_fuel` | | -/
+
+/-- `wfB` decides what `MGraph.WellFormed` needs. -/
+theorem C08_wellFormed_check (g : MGraph) (h : C08.wfB g = true) : g.WellFormed :=
+  TravProofs.wfB_sound h
+
+/-- `closedB`: the view lists nothing for an id that is not a node. -/
+theorem C08_viewClosed_check (v : View) (h : C08.closedB v = true) :
+    ∀ a, a ∉ v.g.nodes → v.succ a = [] ∧ v.pred a = [] :=
+  TravProofs.closedB_sound h
+
+/-- the three checks of the `graph` line put the case inside the scope of every theorem above:
+`ViewOk`, `PredOk`, `WellFormed`, and the neighbour lists stay inside the node list. -/
+theorem C08_viewOk_check (v : View) (h1 : C08.viewOkB v = true) (h2 : C08.wfB v.g = true)
+    (h3 : C08.closedB v = true) : ViewOk v ∧ PredOk v ∧ v.g.WellFormed ∧ TravProofs.Closed v :=
+  TravProofs.graph_check h1 h2 h3
+
+/-- `nodesB`: the start nodes of a request are nodes of the view; for a script, its `move_to` targets. -/
+theorem C08_starts_check (v : View) (l : List Nat) (h : C08.nodesB v l = true) : ∀ x, x ∈ l → x ∈ v.g.nodes :=
+  TravProofs.nodesB_sound h
+
+theorem C08_script_starts_check (v : View) (cmds : List C08.Cmd) (h : C08.nodesB v (C08.cmdStarts cmds) = true) :
+    ∀ s, C08.Cmd.new s ∈ cmds → s ∈ v.g.nodes :=
+  fun s hs => TravProofs.nodesB_sound h s (TravProofs.mem_cmdStarts.mpr hs)
+
+/-- `initsOkB`: the list handed to `Topo::with_initials` is duplicate-free or has at most 14 entries —
+either way within the driver's fuel (next theorem). -/
+theorem C08_inits_check (l : List Nat) (h : C08.initsOkB l = true) : l.Nodup ∨ l.length ≤ 14 :=
+  TravProofs.initsOkB_sound h
+
+/-- **`Topo::with_initials` never runs out of the driver's fuel** for any list of nodes `initsOkB`
+accepts, repetitions included (`C08_driver_runs_total` covers duplicate-free lists only). -/
+theorem C08_driver_topo_init_total (v : View) (h : C08.viewOkB v = true) (hwf : v.g.WellFormed) (l : List Nat)
+    (hl : ∀ x, x ∈ l → x ∈ v.g.nodes) (hok : C08.initsOkB l = true) :
+    ∃ out, topoAll v (C08.bigFuel v) (v.g.nodes.length + 2) (Topo.withInitials v l) [] = some out ∧
+      C08.topoAll v (C08.bigFuel v) (v.g.nodes.length + 2) (Topo.withInitials v l) [] = out := by
+  have hcl := TravProofs.viewOkB_closed v h hwf
+  obtain ⟨f1, _, _, _, f5, _⟩ := TravProofs.driver_fuel v h hwf
+  have f14 := TravProofs.driver_fuel_inits v h hwf
+  rcases TravProofs.initsOkB_sound hok with hnd | hlen
+  · obtain ⟨out, ho⟩ := TravProofs.topo_withInitials_total_nodup v hcl l hnd hl _ _ f1 f5
+    exact ⟨out, ho, TravProofs.driver_topoAll_eq v _ _ _ _ _ ho⟩
+  · obtain ⟨out, ho⟩ := TravProofs.topo_withInitials_total v hcl l hl (C08.bigFuel v) _
+      (by have : TravProofs.walkFuel v + l.length ≤ C08.bigFuel v := by omega
+          exact this) f5
+    exact ⟨out, ho, TravProofs.driver_topoAll_eq v _ _ _ _ _ ho⟩
+
+/-- non-vacuity of the checks: a view that passes all three, and one with a repeated node id that `wfB` rejects. -/
+example : C08.viewOkB ⟨⟨true, [0, 1], [⟨0, 0, 1, 1⟩]⟩, 2, [], [(0, [(1, 0)])], [(1, [(0, 0)])]⟩ = true ∧
+    C08.wfB ⟨true, [0, 1], [⟨0, 0, 1, 1⟩]⟩ = true ∧
+    C08.closedB ⟨⟨true, [0, 1], [⟨0, 0, 1, 1⟩]⟩, 2, [], [(0, [(1, 0)])], [(1, [(0, 0)])]⟩ = true ∧
+    C08.wfB ⟨true, [0, 0], []⟩ = false := by decide
 
 end PetgraphModel.C08T
